@@ -9,7 +9,7 @@ from corelib import ev_consts, mc_consts
 
 PID = "C09"
 # in the session profiles a dirty new session shows up as any of these monitors / fields
-SESS_MON = ("C01", "C02", "C02mono", "C03", "C03mono", "C04delivery", "C05delivery", "C05recipients", "C05complete", "panic")
+SESS_MON = ("C01", "C02", "C02mono", "C03", "C03mono", "C04delivery", "C05delivery", "C05recipients", "C05complete", "C05server", "C05serverComplete", "panic")
 SESS_FIELDS = ("cli", "srv.cl", "ev.net", "delivered")
 
 
